@@ -17,7 +17,49 @@ func (fv *FnVerifier) skolemizeGoal(goal string) string {
 	return goal
 }
 
+// termEnd returns the index just after the term starting at s[i].
+func termEnd(s string, i int) int {
+	if i >= len(s) {
+		return -1
+	}
+	if s[i] == '(' {
+		e := matchParen(s, i)
+		if e < 0 {
+			return -1
+		}
+		return e + 1
+	}
+	j := i
+	for j < len(s) && s[j] != ' ' && s[j] != ')' {
+		if s[j] == '|' {
+			k := strings.IndexByte(s[j+1:], '|')
+			if k < 0 {
+				return -1
+			}
+			j += k + 1
+		}
+		j++
+	}
+	return j
+}
+
 func (fv *FnVerifier) skolemOnce(goal string) (string, bool) {
+	if strings.HasPrefix(goal, "(=> ") && strings.HasSuffix(goal, ")") {
+		// (=> A B): skolemise B
+		ae := termEnd(goal, 4)
+		if ae < 0 || ae >= len(goal) || goal[ae] != ' ' {
+			return goal, false
+		}
+		be := termEnd(goal, ae+1)
+		if be != len(goal)-1 {
+			return goal, false
+		}
+		b, ok := fv.skolemOnce(goal[ae+1 : be])
+		if !ok {
+			return goal, false
+		}
+		return goal[:ae+1] + b + ")", true
+	}
 	const pre = "(forall ("
 	if !strings.HasPrefix(goal, pre) || !strings.HasSuffix(goal, ")") {
 		return goal, false
